@@ -48,7 +48,7 @@ Conv(f, v) ==
             [] v.t = "uint" -> IntRes(64, BigOf(v))
             [] v.t = "double" -> (IF v.c \in {"nan", "inf"} THEN Err ELSE IntRes(64, DTrunc(v)))
             [] v.t = "string" -> (LET x == ParseDec(v.v) IN IF x = BadTs THEN (IF Lenient(v.v) THEN Indef ELSE Err) ELSE IntRes(64, x))
-            [] v.t = "timestamp" -> IntV(BFloorDivMod(BigOf(v), Mega)[1])
+            [] v.t = "timestamp" -> IntV(EpochSeconds(BigOf(v)))
             [] OTHER -> Indef)
     [] f = "uint" ->
          (CASE v.t = "uint" -> v
